@@ -239,6 +239,9 @@ theorem Pre_usingBody (σ0 : State) (n : ClassId) (hn : σ0.classes.length ≤ n
       case labels ls =>
         exact Pre_usingBody σ0 n hn rest _ σ2
           (Pre_setOwn σ0 _ (hp.trans (Pre_alloc σ1 _)) n hn a _) h
+      case members ms =>
+        exact Pre_usingBody σ0 n hn rest _ σ2
+          (Pre_setOwn σ0 _ (hp.trans (Pre_alloc σ1 _)) n hn a _) h
       all_goals exact Pre_usingBody σ0 n hn rest _ σ2 (Pre_setOwn σ0 σ1 hp n hn a _) h
     · simp at h
 
